@@ -100,19 +100,27 @@ def safe_run(prop, case):
 
 
 def _wrun(job):
-    i, seed, tier = job
+    i, kind, payload, tier = job
     faulthandler.dump_traceback_later(getattr(_PROP, 'CASE_TIMEOUT', 300), exit=True)
     try:
-        rng = random.Random(seed)
-        case = _PROP.gen(rng, tier)
-        case['seed'] = seed
+        if kind == 'seed':
+            rng = random.Random(payload)
+            case = _PROP.gen(rng, tier)
+            case['seed'] = payload
+        else:
+            case = payload
         t0 = time.time()
         out = safe_run(_PROP, case)
         out['wall'] = time.time() - t0
-        keep_case = bool(out['violations'] or out['harness']) or i < 3
-        return i, seed, (case if keep_case else None), out
+        keep_case = bool(out['violations'] or out['harness']) or i < 3 or kind != 'seed'
+        return i, kind, (case if keep_case else None), out
     finally:
         faulthandler.cancel_dump_traceback_later()
+
+
+def _wshrink(args):
+    case, sig, budget = args
+    return shrink(_PROP, case, sig, budget_s=budget)
 
 
 # ------------------------------------------------------------- findings ----
@@ -169,7 +177,13 @@ def write_replay(pid, case, v):
 def confirm_replay(pid, path):
     """Re-execute the replay file in a fresh interpreter; it must fail the same way."""
     cmd = [os.path.join(VERIF, 'bin', 'check'), pid, '--replay', path, '--quiet']
-    r = subprocess.run(cmd, capture_output=True, text=True, timeout=900)
+    try:
+        r = subprocess.run(cmd, capture_output=True, text=True, timeout=900)
+    except subprocess.TimeoutExpired:
+        return 'crash@' in open(path).read(), 'replay timed out'
+    if r.returncode < 0 or r.returncode > 2:
+        # died with a signal: reproduces a crash; for other signatures the verdict line must be there
+        return ('crash@' in open(path).read()) or ('VIOLATION property=' in r.stdout), r.stdout[-2000:]
     return r.returncode == EXIT_VIOLATION, r.stdout[-2000:] + r.stderr[-2000:]
 
 
@@ -201,7 +215,58 @@ def run_replay(pid, path, quiet=False):
     return EXIT_OK
 
 
+def _make_pool(pid, workers):
+    env = {k: os.environ[k] for k in ('VERIF_REPO', 'NUMBA_NUM_THREADS', 'PYTHONHASHSEED') if k in os.environ}
+    ctx = mp.get_context('forkserver')
+    ex = cf.ProcessPoolExecutor(max_workers=workers, mp_context=ctx, initializer=_winit, initargs=(pid, env))
+    _POOLS.append(ex)
+    return ex
+
+
+_POOLS = []
+
+
+def kill_pool(ex):
+    """Terminate the worker processes outright (they may be wedged or damaged)."""
+    try:
+        procs = list((ex._processes or {}).values())
+    except Exception:
+        procs = []
+    try:
+        ex.shutdown(wait=False, cancel_futures=True)
+    except Exception:
+        pass
+    for p in procs:
+        try:
+            p.kill()
+        except Exception:
+            pass
+
+
+def kill_all_pools():
+    for ex in _POOLS:
+        kill_pool(ex)
+    del _POOLS[:]
+
+
+def _run_alone(pid, job, timeout=900):
+    """Run one job in its own single-worker pool.  Returns (result, died)."""
+    ex = _make_pool(pid, 1)
+    try:
+        fut = ex.submit(_wrun, job)
+        return fut.result(timeout=timeout), False
+    except cf.process.BrokenProcessPool:
+        return None, True
+    except cf.TimeoutError:
+        return None, True
+    finally:
+        kill_pool(ex)
+
+
 def run_check(pid, tier, seconds=None, runs=None, workers=None, verif_seed=None):
+    """The main process never executes code under test: every case (corpus,
+    sweep, seeded, shrink candidates) runs in a worker, so that memory damage
+    caused by a broken kernel cannot corrupt the verdict."""
     t_start = time.time()
     boot.setup()
     prop = load_prop(pid)
@@ -210,20 +275,22 @@ def run_check(pid, tier, seconds=None, runs=None, workers=None, verif_seed=None)
     findings = load_findings(pid)
     workers = workers or int(os.environ.get('VERIF_WORKERS', '0')) or min(16, os.cpu_count() or 1)
     if tier == 'quick':
-        nruns = runs or int(os.environ.get('VERIF_RUNS', '0')) or getattr(prop, 'QUICK_RUNS', 200)
+        nruns = runs if runs is not None else (int(os.environ.get('VERIF_RUNS', '0')) or getattr(prop, 'QUICK_RUNS', 200))
         deadline = t_start + (seconds or getattr(prop, 'QUICK_SECONDS', 150))
     else:
-        nruns = runs or int(os.environ.get('VERIF_RUNS', '0')) or getattr(prop, 'THOROUGH_RUNS', 10 ** 9)
+        nruns = runs if runs is not None else (int(os.environ.get('VERIF_RUNS', '0')) or getattr(prop, 'THOROUGH_RUNS', 10 ** 9))
         deadline = t_start + (seconds or int(os.environ.get('VERIF_THOROUGH_SECONDS', '0'))
                               or getattr(prop, 'THOROUGH_SECONDS', 900))
 
     agg = {'evaluations': 0, 'probes': {}, 'faults': {}, 'steps': 0, 'digests': set(),
-           'nontrivial': set(), 'samples': [], 'harness': [], 'wall_cases': 0.0}
+           'nontrivial': set(), 'samples': [], 'harness': [], 'wall_cases': 0.0, 'crashes': 0}
     new_violations = {}     # signature -> (case, violation)
     known_hits = {}         # finding id -> count
     corpus_results = []
+    seeds_used = []
 
-    def absorb(case, out, origin):
+    def absorb(job, case, out):
+        i, kind, payload, _ = job
         agg['evaluations'] += 1
         agg['steps'] += out.get('steps', 0)
         agg['wall_cases'] += out.get('wall', 0.0)
@@ -235,7 +302,13 @@ def run_check(pid, tier, seconds=None, runs=None, workers=None, verif_seed=None)
         for k, n in out['faults'].items():
             bump(agg['faults'], k, n)
         if out['harness']:
-            agg['harness'].append({'origin': origin, 'error': out['harness'], 'case': case})
+            agg['harness'].append({'origin': kind, 'error': out['harness'], 'case': case})
+        if kind == 'seed' and len(seeds_used) < 8:
+            seeds_used.append(payload)
+        if isinstance(kind, str) and kind.startswith('corpus/'):
+            corpus_results.append({'file': kind[7:], 'signatures': [v['signature'] for v in out['violations']]})
+        if case is not None and len(agg['samples']) < 4 and not out['violations'] and not out['harness']:
+            agg['samples'].append({'origin': kind, 'case': _shorten(case), 'digest': out['digest']})
         for v in out['violations']:
             f = match_finding(findings, v)
             if f is not None:
@@ -243,81 +316,110 @@ def run_check(pid, tier, seconds=None, runs=None, workers=None, verif_seed=None)
             elif v['signature'] not in new_violations and case is not None:
                 new_violations[v['signature']] = (case, v)
 
-    # ---- 1. corpus (regression cases, including one per known finding)
-    cdir = os.path.join(VERIF, 'corpus', pid)
-    if hasattr(prop, 'warmup'):
-        prop.warmup()
-    if os.path.isdir(cdir):
-        for fn in sorted(os.listdir(cdir)):
-            if not fn.endswith('.json'):
-                continue
-            with open(os.path.join(cdir, fn)) as fh:
-                rec = json.load(fh)
-            case = rec['case'] if 'case' in rec else rec
-            out = safe_run(prop, case)
-            absorb(case, out, 'corpus/' + fn)
-            corpus_results.append({'file': fn, 'signatures': [v['signature'] for v in out['violations']]})
+    def crashed(job):
+        """A worker died while running this job (already confirmed alone)."""
+        i, kind, payload, _ = job
+        agg['crashes'] += 1
+        if kind == 'seed':
+            case = prop.gen(random.Random(payload), tier)   # generators never touch code under test
+            case['seed'] = payload
+        else:
+            case = payload
+        v = {'kind': 'crash', 'site': 'worker-process', 'signature': 'crash@worker-process',
+             'detail': 'the worker process died (signal / timeout) while executing this case'}
+        f = match_finding(findings, v)
+        if f is not None:
+            bump(known_hits, f['id'])
+        elif v['signature'] not in new_violations:
+            new_violations[v['signature']] = (case, v)
 
-    # ---- 2. deterministic sweeps a property may define (finite enumerations)
-    if hasattr(prop, 'sweep'):
-        for case in prop.sweep(tier):
-            if time.time() > deadline:
+    def jobs():
+        n = 0
+        cdir = os.path.join(VERIF, 'corpus', pid)
+        if os.path.isdir(cdir):
+            for fn in sorted(os.listdir(cdir)):
+                if fn.endswith('.json'):
+                    with open(os.path.join(cdir, fn)) as fh:
+                        rec = json.load(fh)
+                    yield (n, 'corpus/' + fn, rec['case'] if 'case' in rec else rec, tier)
+                    n += 1
+        if hasattr(prop, 'sweep'):
+            for case in prop.sweep(tier):
+                yield (n, 'sweep', case, tier)
+                n += 1
+        for k in range(nruns):
+            yield (n, 'seed', derive_seed(verif_seed, pid, tier, k), tier)
+            n += 1
+
+    jobit = jobs()
+    ex = _make_pool(pid, workers)
+    pending = {}
+    exhausted = False
+    try:
+        while True:
+            while not exhausted and len(pending) < workers * 3:
+                try:
+                    job = next(jobit)
+                except StopIteration:
+                    exhausted = True
+                    break
+                # corpus and sweep cases always run; seeded cases stop at the deadline
+                if job[1] == 'seed' and time.time() > deadline:
+                    exhausted = True
+                    break
+                pending[ex.submit(_wrun, job)] = job
+            if not pending:
                 break
-            out = safe_run(prop, case)
-            absorb(case, out, 'sweep')
-            if len(agg['samples']) < 2:
-                agg['samples'].append({'case': _shorten(case), 'digest': out['digest']})
+            done, _ = cf.wait(list(pending), timeout=900, return_when=cf.FIRST_COMPLETED)
+            if not done:
+                agg['harness'].append({'origin': 'pool', 'error': 'no progress for 900 s'})
+                break
+            broken = False
+            for fut in done:
+                job = pending.pop(fut)
+                try:
+                    i, kind, case, out = fut.result()
+                    absorb(job, case, out)
+                except cf.process.BrokenProcessPool:
+                    broken = True
+                    pending[fut] = job
+                    break
+            if broken:
+                suspects = list(pending.values())
+                pending.clear()
+                kill_pool(ex)
+                for job in suspects:
+                    res, died = _run_alone(pid, job)
+                    if died:
+                        crashed(job)
+                    else:
+                        absorb(job, res[2], res[3])
+                ex = _make_pool(pid, workers)
+            if len(new_violations) >= 4:
+                break
+    finally:
+        for fut in pending:
+            fut.cancel()
 
-    # ---- 3. seeded search
-    env = {k: os.environ[k] for k in ('VERIF_REPO', 'NUMBA_NUM_THREADS', 'PYTHONHASHSEED') if k in os.environ}
-    ctx = mp.get_context('forkserver')
-    seeds_used = []
-    if nruns > 0 and time.time() < deadline:
-        with cf.ProcessPoolExecutor(max_workers=workers, mp_context=ctx, initializer=_winit,
-                                    initargs=(pid, env)) as ex:
-            nxt = 0
-            pending = set()
-            try:
-                while True:
-                    while len(pending) < workers * 3 and nxt < nruns and time.time() < deadline:
-                        s = derive_seed(verif_seed, pid, tier, nxt)
-                        pending.add(ex.submit(_wrun, (nxt, s, tier)))
-                        nxt += 1
-                    if not pending:
-                        break
-                    done, pending = cf.wait(pending, timeout=600, return_when=cf.FIRST_COMPLETED)
-                    if not done:
-                        agg['harness'].append({'origin': 'pool', 'error': 'no progress for 600 s'})
-                        break
-                    for fut in done:
-                        i, seed, case, out = fut.result()
-                        if len(seeds_used) < 8:
-                            seeds_used.append(seed)
-                        absorb(case, out, 'seed')
-                        if case is not None and len(agg['samples']) < 4 and not out['violations']:
-                            agg['samples'].append({'case': _shorten(case), 'digest': out['digest']})
-                    if len(new_violations) >= 4:
-                        break
-            except cf.process.BrokenProcessPool as e:
-                agg['harness'].append({'origin': 'pool', 'error': 'worker died: %r' % (e,)})
-            finally:
-                for fut in pending:
-                    fut.cancel()
-
-    # ---- 4. minimise + confirm new violations
+    # ---- minimise + confirm new violations (in a worker, never in this process)
     reported = []
     for sig, (case, v) in new_violations.items():
-        small, nshr = shrink(prop, case, sig, budget_s=getattr(prop, 'SHRINK_SECONDS', 60))
-        out = safe_run(prop, small)
-        vv = next((x for x in out['violations'] if x['signature'] == sig), v)
-        path = write_replay(pid, small, vv)
+        small, nshr = case, 0
+        if not sig.startswith('crash@'):
+            try:
+                small, nshr = ex.submit(_wshrink, (case, sig, getattr(prop, 'SHRINK_SECONDS', 60))).result(timeout=600)
+            except Exception:
+                kill_pool(ex)
+                ex = _make_pool(pid, workers)
+        path = write_replay(pid, small, v)
         ok, tail = confirm_replay(pid, path)
         if ok:
             reported.append((sig, path, nshr))
         else:
             agg['harness'].append({'origin': 'replay', 'error': 'replay of %s did not reproduce: %s' % (path, tail)})
+    kill_pool(ex)
 
-    # ---- 5. evidence
+    # ---- evidence
     wall = time.time() - t_start
     ev = {
         'property_id': pid, 'tier': tier, 'seed': verif_seed,
@@ -329,6 +431,7 @@ def run_check(pid, tier, seconds=None, runs=None, workers=None, verif_seed=None)
             'samples': agg['samples'] or [{'note': 'no clean sample recorded'}],
             'distinct_event_digests': len(agg['digests']),
             'logical_steps': agg['steps'],
+            'simulated_time': 'logical scheduler/IO steps only (the package has no timers): %d' % agg['steps'],
             'runs_per_hour': int(agg['evaluations'] / max(wall, 1e-9) * 3600),
             'seeds_first': seeds_used,
             'fault_kinds_fired': agg['faults'],
@@ -336,6 +439,7 @@ def run_check(pid, tier, seconds=None, runs=None, workers=None, verif_seed=None)
             'components': getattr(prop, 'COMPONENTS', {}),
             'corpus': corpus_results,
             'known_findings_hit': known_hits,
+            'worker_crashes': agg['crashes'],
             'workers': workers,
             'exhaustive': bool(getattr(prop, 'EXHAUSTIVE', False)),
         },
@@ -343,14 +447,12 @@ def run_check(pid, tier, seconds=None, runs=None, workers=None, verif_seed=None)
         'wall_s': round(wall, 2),
         'violations': len(reported),
     }
-    if hasattr(prop, 'evidence_extra'):
-        ev['coverage'].update(prop.evidence_extra())
     evdir = os.environ.get('VERIF_EVIDENCE_DIR') or os.path.join(VERIF, 'evidence')
     os.makedirs(evdir, exist_ok=True)
     with open(os.path.join(evdir, pid + '.json'), 'w') as fh:
         json.dump(ev, fh, indent=1, sort_keys=True, default=_js)
 
-    # ---- 6. verdict
+    # ---- verdict
     for f in findings:
         if known_hits.get(f['id']):
             print('KNOWN-FINDING: property=%s %s' % (pid, f['what']))
@@ -367,8 +469,7 @@ def run_check(pid, tier, seconds=None, runs=None, workers=None, verif_seed=None)
         for h in agg['harness'][:3]:
             print('HARNESS-ERROR property=%s origin=%s\n%s' % (pid, h['origin'], h['error']))
             if h.get('case') is not None:
-                hp = os.path.join(VERIF, 'replays', '%s-harness.json' % pid)
-                os.makedirs(os.path.dirname(hp), exist_ok=True)
+                hp = os.path.join(evdir, '%s-harness.json' % pid)
                 with open(hp, 'w') as fh:
                     json.dump({'property': pid, 'case': h['case']}, fh, default=_js)
         return EXIT_HARNESS
